@@ -530,7 +530,7 @@ def run(ctx):
         for law in ['divseq', 'powseq', 'prodseq', 'mulseq', 'antiseq']:
             if (tw and law in ('divseq', 'powseq')) or (c == 'UnitQuaternion' and law == 'prodseq'):
                 continue
-            for m in ([127, 128, 129, 256, 257] if law != 'prodseq' else [128]) + [int([2000, 2048, 2500][rng.integers(3)])] * ctx.scale(1, 3):
+            for m in ([127, 128, 129, 256, 257] if law != 'prodseq' else [128]) + [int([2000, 2048, 2500][rng.integers(3)])] * ctx.scale(1, 3) + ([4096, 10007] if ctx.tier == 'thorough' else []):
                 k_ += 1
                 if not ctx.mine(k_):
                     continue
@@ -551,7 +551,7 @@ def run(ctx):
         law = laws[rng.integers(len(laws))]
         n = int(rng.integers(1, 9))
         if law in ('divseq', 'powseq', 'prodseq', 'mulseq', 'antiseq'):
-            m = int(rng.integers(2, 5))
+            m = int(rng.integers(2, 8))
             if rng.random() < 0.12:         # long sequences (a batch path, a periodic renormalisation would show here)
                 m = int([16, 17, 33, 64, 65, 100][rng.integers(6)])
             xs = [operand(rng, c) for _ in range(m)]
@@ -565,6 +565,19 @@ def run(ctx):
         else:
             k = {'assoc': 3, 'antihom': 2, 'div': 2, 'aug_copy': 2, 'aug_index': 2, 'aug_div': 2}.get(law, 1)
             p = dict(cls=c, law=law, ops=[operand(rng, c) for _ in range(k)], n=n)
+            if tw and k >= 2 and rng.random() < 0.3:
+                # operands related to one another (two joints of one mechanism): the same axis, a parallel axis, the axis mirrored
+                # through the origin (moments of opposite sign), each with its own angle small enough for the sum to stay below pi
+                nw = 3 if c == 'Twist3' else 1
+                x0 = p['ops'][0]
+                if np.linalg.norm(x0[-nw:]) > 1:
+                    x0 = np.r_[x0[:-nw], x0[-nw:] / np.linalg.norm(x0[-nw:]) * rng.uniform(0.1, 1.2)]
+                    p['ops'][0] = x0
+                lam = float(rng.uniform(0.2, 1.2))
+                how = rng.integers(3)
+                v1 = [x0[:-nw] * lam, -x0[:-nw] * lam, gen.transl(rng, len(x0) - nw, hi=1e2)][how]
+                p['ops'][1] = np.r_[v1, x0[-nw:] * lam]
+                p['related'] = ['coaxial', 'mirrored', 'parallel'][how]
             if law == 'pow' and rng.random() < 0.3:
                 p['npint'] = True
             if law == 'div' and rng.random() < 0.5:
